@@ -3,7 +3,8 @@
 Each seeded change is applied to a scratch COPY of /repo (never to /repo itself), the checks named
 on the command line (default: the property the change targets) are run against the copy through
 VERIF_REPO with evidence / replay output redirected to the scratch directory, and the copy is
-deleted.  `python selftest/seeded_eval.py [name ...] [--checks C01,C12 | --all-checks]`."""
+deleted.  `python selftest/seeded_eval.py [name ...] [--checks=C01,C12 | --all-checks] [--thorough]
+[--record]` (--record stores the verdicts in seeded/<name>/meta.json)."""
 import json
 import os
 import shutil
@@ -56,9 +57,20 @@ def main():
         elif a == "--thorough":
             tier = "thorough"
     names = args or sorted(n for n in os.listdir(SEEDED) if os.path.isdir(os.path.join(SEEDED, n)))
+    record = "--record" in sys.argv
     for n in names:
-        for row in run(n, checks, tier):
+        rows = run(n, checks, tier)
+        for row in rows:
             print("%s %s: %s %s" % row, flush=True)
+        if record:
+            # results are kept next to the change (meta.json: checks -> {check: verdict ...})
+            mp = os.path.join(SEEDED, n, "meta.json")
+            meta = json.load(open(mp))
+            for _n, chk, verdict, info in rows:
+                meta.setdefault("checks", {})[chk] = {
+                    "tier": tier, "verdict": verdict,
+                    "mechanisms": info.rsplit(" (", 1)[0]}
+            json.dump(meta, open(mp, "w"), indent=1)
 
 
 if __name__ == "__main__":
